@@ -103,6 +103,10 @@ def key(tag, toks, d):
         return "C03:usage!=sum:gc/IsUnused-ignores-memory:gc() closed a peer/protocol scope whose only holder is a View memory reservation"
     if clause == 1 and opc == 2 and site == 3:
         return "C03:usage!=sum:SetPeer/after-refused-allow-list-transfer:SetPeer accepted on a connection that a refused transferAllowedToStandard left with no edges"
+    if clause == 5:
+        # [902 step 5 class (1)]: an answer the property does not allow: a refusal without the sentinel /
+        # with a closed-scope or plain error that neither a closed owner nor a caller error explains
+        return "C03:illegal-answer:%s:class%s:step%d" % (OPN.get(opc, opc), d[3] if len(d) > 3 else "?", step)
     scope = KIND.get(d[3], "?") if len(d) > 3 else "?"
     return "C03:%s:%s:%s:step%d:%s" % (CLAUSE.get(clause, clause), OPN.get(opc, opc), scope, step, " ".join(map(str, d[3:22])))
 
@@ -113,6 +117,10 @@ def what(tag, toks, d):
     sp = split_case(toks)
     step = d[1] if len(d) > 1 else -1
     op = fmt_op(sp[2][step][0]) if sp and 0 <= step < len(sp[2]) else "?"
+    if len(d) > 3 and d[2] == 5:
+        cname = {0: "ok", 1: "resource-limit sentinel", 2: "scope closed", 3: "plain error (no sentinel)", 4: "per-IP cap"}.get(d[3], d[3])
+        return ("step %d %s answered '%s': an operation may be refused only with an error wrapping the resource-limit sentinel, "
+                "unless a closed scope / owner or a caller error (second attach, negative size) explains it" % (step, op, cname))
     return "%s after step %d %s (diag %s)" % (CLAUSE.get(d[2] if len(d) > 2 else 0, "?"), step, op, d[3:22])
 
 
